@@ -28,9 +28,9 @@ RULE = (
     "(string, int, float, bool, date-time, date, time, arrays of each, nested array, empty array, inline table, array of tables, table, absent), in the "
     "root and in a nested REUSE.toml; (b) generated TOML documents (recursive values), truncated / corrupted TOML, dep5 with missing fields, broken "
     "stanzas, bad escapes, duplicate fields, invalid UTF-8, dep5 + REUSE.toml; (c) covered files / .license siblings / LICENSES texts made of "
-    "arbitrary bytes, NULs, invalid UTF-8, unparseable or degenerate expressions ('()', '(AND 1'), 200 kB lines, thousands of ignore markers; "
-    "read faults (EACCES, vanishing) injected per file.  Every case is run through lint (--json, --lines), lint-file, spdx, annotate, "
-    "convert-dep5, download.  Oracle: no escaping exception, exit in {0,1,2}, exit 2 names the offending file, clearly broken configuration => exit 2, "
+    "arbitrary bytes, NULs, invalid UTF-8, a project template (used by annotate) and a .gitmodules (in a Git repository) made of arbitrary bytes or of Jinja2 / git-config token sequences, unparseable or degenerate expressions ('()', '(AND 1'), 200 kB lines, thousands of ignore markers; "
+    "read faults (EACCES, vanishing on open, vanishing between the directory listing and the first look at the entry — file or directory) injected per entry.  Every case is run through lint (--json, --lines), lint-file, spdx, annotate, "
+    "convert-dep5, download, and lint + spdx once more after a successful convert-dep5; REUSE.toml path values also from glob-ish text over {a b / * \\ . ? [}.  Oracle: no escaping exception, exit in {0,1,2}, exit 2 names the offending file, clearly broken configuration => exit 2, "
     "unreadable covered file => reported and the rest still reported.  Non-trivial = input that is rejected or degraded (exit != 0 or a read error); "
     "distinct by (generator, case content)."
 )
@@ -100,7 +100,7 @@ DEP5_GOOD = "Format: https://www.debian.org/doc/packaging-manuals/copyright-form
 def commands(files, has_dep5):
     target = "src/sub/b.py" if "src/sub/b.py" in files else next(iter(files))
     cmds = [["lint"], ["lint", "--json"], ["lint", "--lines"], ["lint-file", "src/a.py", target], ["spdx"], ["spdx", "-o", "bom.spdx"],
-            ["annotate", "--copyright", "V", "--license", "MIT", "--year", "2020", target],
+            ["annotate", "--copyright", "V", "--license", "MIT", "--year", "2020", *(["--template", "odd"] if ".reuse/templates/odd.jinja2" in files else []), target],
             ["download", "LicenseRef-verif"]]
     if has_dep5:
         cmds.append(["convert-dep5"])
@@ -113,6 +113,8 @@ def run_all(ctx, case, files, config_paths=(), expect_usage=False, fault_plan=No
     outcomes = []
     try:
         tree.write_tree(root, files)
+        if ".gitmodules" in files:
+            tree.git_init(root)
         plan = {str(root / p): k for p, k in (fault_plan or {}).items()}
         has_dep5 = ".reuse/dep5" in files
         for cmd in commands(files, has_dep5):
@@ -134,6 +136,17 @@ def run_all(ctx, case, files, config_paths=(), expect_usage=False, fault_plan=No
                     ctx.fail(dict(case, command=cmd), f"{what}: usage/configuration error does not name the file ({config_paths}): {text[-400:]!r}")
             if expect_usage and cmd[0] not in ("download",) and res.code != 2:
                 ctx.fail(dict(case, command=cmd), f"{what}: broken configuration, expected exit 2 from `reuse {' '.join(cmd)}`, got {res.brief()}")
+        if has_dep5 and outcomes and outcomes[-1][0] == ["convert-dep5"] and outcomes[-1][1].crash is None and outcomes[-1][1].code == 0:
+            # second step of the history: the REUSE.toml that convert-dep5 wrote is now the configuration
+            for cmd in (["lint"], ["spdx"]):
+                res = cli.run(["--no-multiprocessing", *cmd], root)
+                outcomes.append((["convert-dep5", "&&", *cmd], res))
+                if res.crash is not None:
+                    frame = cli.innermost_reuse_frame(res)
+                    ctx.fail(dict(case, command=["convert-dep5", "&&", *cmd]), f"{what}: after a successful convert-dep5, `reuse {' '.join(cmd)}` ended in an unhandled {type(res.crash).__name__}: {res.crash} "
+                             f"(innermost frame {frame})\n{res.crash_tb[-1200:]}", f"crash:{type(res.crash).__name__}@{frame}")
+                elif res.code not in (0, 1, 2):
+                    ctx.fail(dict(case, command=cmd), f"{what}: after convert-dep5, `reuse {' '.join(cmd)}` exit status {res.code}")
     finally:
         tree.rmtree(root)
     return outcomes
@@ -175,6 +188,11 @@ def toml_doc(draw):
             break
         lines.append("[[annotations]]")
         for k in draw(st.lists(st.sampled_from(KEYS[2:] + ["path", "extra"]), max_size=5, unique=True)):
+            if k == "path" and draw(st.booleans()):
+                # glob-ish text as TOML literal strings (no escaping), alone or in an array
+                globs = draw(st.lists(st.text(alphabet="ab/*\\.?[", min_size=0, max_size=6), min_size=1, max_size=3))
+                lines.append("path = " + (f"'{globs[0]}'" if len(globs) == 1 else "[" + ", ".join(f"'{g}'" for g in globs) + "]"))
+                continue
             lines.append(f"{k} = {draw(st.one_of(toml_value, st.sampled_from(list(GOOD.values()))))}")
     doc = "\n".join(lines) + "\n"
     corrupt = draw(st.sampled_from(["none", "none", "truncate", "garbage", "badutf8", "dup-key", "unclosed"]))
@@ -261,14 +279,26 @@ ODD_CONTENT = [
 ]
 
 
+JINJA_TOKENS = ["{{ ", " }}", "{% ", " %}", "{# ", " #}", "for x in ", "copyright_lines", "spdx_expressions", "contributor_lines", "endfor", "if ", "endif", "x", "nope", ".attr",
+                "()", "1", " / 0", " | ", "join", "upper", "\n", "SPDX-License-Identifier: ", "{{ expression }}", "{% for expression in spdx_expressions %}", "{% endfor %}", "{% for copyright_line in copyright_lines %}",
+                "{{ copyright_line }}", "'", "[0]", "é"]
+GITCONFIG_TOKENS = ['[submodule "a"]\n', "[submodule]\n", '[submodule "b c"]\n', "\tpath = sub\n", "\tpath =\n", "\tpath\n", "\tpath = src/sub\n", "\tpath = ../out\n", "\tpath = /abs\n", "\turl = https://example.org/x.git\n",
+                    "[core]\n", "\tpath = \"quo ted\"\n", "[submodule \"a\"\n", "\tpath = a\\\n", "garbage\n", "\tpath = é\n", "= x\n", "[\n"]
+
+
 @st.composite
 def content_case(draw):
-    where = draw(st.sampled_from(["file", "file", "dotlicense", "licenses", "template"]))
-    data = draw(st.one_of(st.sampled_from(ODD_CONTENT), st.binary(min_size=1, max_size=200),
+    where = draw(st.sampled_from(["file", "file", "dotlicense", "licenses", "template", "template", "gitmodules"]))
+    if where == "template" and draw(st.booleans()):
+        data = "".join(draw(st.lists(st.sampled_from(JINJA_TOKENS), min_size=1, max_size=10))).encode()
+    elif where == "gitmodules" and draw(st.integers(0, 3)) != 0:
+        data = "".join(draw(st.lists(st.sampled_from(GITCONFIG_TOKENS), min_size=1, max_size=8))).encode()
+    else:
+        data = draw(st.one_of(st.sampled_from(ODD_CONTENT), st.binary(min_size=1, max_size=200),
                           st.binary(min_size=1, max_size=60).map(lambda b: b"SPDX-License-Identifier: " + b + b"\n"),
                           st.text(alphabet="()ANDORWITH MIT+-.:", min_size=1, max_size=20).map(lambda s: f"# SPDX-License-Identifier: {s}\n".encode())))
-    fault = draw(st.sampled_from([None, None, None, "eacces", "vanish"]))
-    fault_on = draw(st.sampled_from(["src/a.py", "src/sub/b.py", "c.txt", "LICENSES/MIT.txt"]))
+    fault = draw(st.sampled_from([None, None, None, "eacces", "vanish", "vanish-listed", "vanish-listed-2"]))
+    fault_on = draw(st.sampled_from(["src/a.py", "src/sub/b.py", "c.txt", "LICENSES/MIT.txt"] + (["src/sub", "src/sub/b.py"] if fault in ("vanish-listed", "vanish-listed-2") else [])))
     return {"gen": "content", "where": where, "data": data, "fault": fault, "fault_on": fault_on}
 
 
@@ -281,12 +311,16 @@ def check_content(ctx, c):
     elif c["where"] == "licenses":
         files["LICENSES/LicenseRef-odd.txt"] = c["data"]
         files["src/sub/b.py"] = "# SPDX-FileCopyrightText: 2020 B\n# SPDX-License-Identifier: LicenseRef-odd\n"
+    elif c["where"] == "gitmodules":
+        files[".gitmodules"] = c["data"]
     else:
         files[".reuse/templates/odd.jinja2"] = c["data"]
     plan = {c["fault_on"]: c["fault"]} if c["fault"] else None
     out = run_all(ctx, c, files, fault_plan=plan, what=f"odd bytes in {c['where']}" + (f", {c['fault']} on {c['fault_on']}" if c["fault"] else ""))
     # the other files are still reported
     for cmd, res in out:
+        if c["fault"] and cmd[0] in ("lint", "spdx") and res.crash is None and res.code == 2:
+            ctx.fail(dict(c, command=cmd), f"{c['fault']} on {c['fault_on']} (no configuration file involved) made `reuse {' '.join(cmd)}` a usage error instead of a report: {(res.err + res.out)[-300:]!r}")
         if cmd == ["lint", "--json"] and res.crash is None and res.code in (0, 1):
             import json
 
@@ -297,7 +331,10 @@ def check_content(ctx, c):
             seen = {f["path"] for f in data["files"]} | {os.path.relpath(e, os.path.dirname(os.path.dirname(e))) if False else e for e in data["non_compliant"]["read_errors"]}
             names = " ".join(seen)
             for must in ("a.py", "c.txt", "b.py"):
-                if must not in names and not (c["fault"] == "vanish" and must in c["fault_on"]):
+                if c["where"] == "gitmodules" and must == "b.py" and b"sub" in c["data"]:
+                    continue  # src/sub may then be a submodule, whose files are not covered
+                gone = c["fault"] in ("vanish", "vanish-listed", "vanish-listed-2") and (must in c["fault_on"] or (must == "b.py" and c["fault_on"] == "src/sub"))
+                if must not in names and not gone:
                     ctx.fail(c, f"{must} is neither reported as a file nor as a read error: files/read errors {sorted(seen)}")
             shadowed = c["where"] == "dotlicense" and c["fault_on"] == "src/sub/b.py"  # the sibling is read instead
             if c["fault"] == "eacces" and c["fault_on"] != "LICENSES/MIT.txt" and not shadowed:
